@@ -3,7 +3,7 @@ from __future__ import annotations
 
 import itertools
 
-from mc import objspace as ob, refmodel as rm
+from mc import e1, objspace as ob, refmodel as rm
 from mc.common import HarnessError
 
 ID = "C10"
@@ -12,7 +12,7 @@ ENGINE = "E2"
 TECHNIQUE = "exhaustive enumeration of code-byte windows (real objdump) and grammar lines through the real parser and consumer; decode(stream) must equal the parsed instruction list; pairwise injectivity on a reduced alphabet"
 RULE = ("every instruction list the real parser produces from (b) the real objdump output of EVERY one-byte prefix x 16 tails "
         "and EVERY two-byte prefix x T tails (quick 3, thorough 16, plus third-byte sweeps) for both ELF classes, and (a) "
-        "EVERY operand-grammar line of C09; plus long listings (2^16+-1 instructions). Oracle: decode(stream) (split on '|', "
+        "EVERY operand-grammar line of C09; plus sections ending in every 1-byte / prefix-led 2-byte sequence, ~70 exotic instructions (AVX-512 {%k1}{z}/{1to16}, x87 %st(i), string ops, segment overrides, far branches) through real as+objdump, and long listings (2^16+-1 instructions). Oracle: decode(stream) (split on '|', "
         "first '::', ',') == list of (addr, mnemonic, operands) returned by the public parse function, and "
         "encode(decode(stream)) == stream; injectivity checked directly: all ordered pairs of distinct instruction lists of "
         "length <= 2 over a 7-instruction alphabet (incl. operand-less, empty-looking and separator-adjacent fields) give "
@@ -33,7 +33,7 @@ def bounds(tier):
 
 
 def shards(tier):
-    return ob.window_shards(tier) + [{"kind": "inj"}, {"kind": "long", "n": 65535}, {"kind": "long", "n": 65537}, {"kind": "grammar"}]
+    return ob.window_shards(tier) + ob.eos_shards(tier) + [{"kind": "exotic"}, {"kind": "inj"}, {"kind": "long", "n": 65535}, {"kind": "long", "n": 65537}, {"kind": "grammar"}]
 
 
 def run_inj(h, res, known):
@@ -55,7 +55,7 @@ def run_inj(h, res, known):
             dec = rm.decode(stream)
         except ValueError as e:
             dec = str(e)
-        want = [(a, m, tuple(rm.normalise_operand(x) for x in o)) for a, m, o in att]
+        want = [e1.norm_inst(a, m, o) for a, m, o in att]
         if dec != want:
             res.fail({"clause": "encoding", "family": "inj", "listing": [[a, m, list(o)] for a, m, o in att],
                       "expected": str(want), "observed": str(dec), "size": len(att)}, known)
@@ -79,6 +79,10 @@ def run_shard(shard, tier, h, res, known):
         run_inj(h, res, known)
     elif shard["kind"] == "long":
         run_long(shard["n"], h, res, known)
+    elif shard["kind"] == "eos":
+        ob.run_eos_shard(shard, tier, h, res, known, CLAUSES, ID)
+    elif shard["kind"] == "exotic":
+        ob.run_exotic(h, res, known, CLAUSES)
     elif shard["kind"] == "grammar":
         import checks.C09 as c09
         c09.run_grammar({"lo": 0, "n": 1}, tier, h, res, known, CLAUSES)
@@ -99,7 +103,7 @@ def replay(case, h):
     if case.get("family") == "inj":
         att = [(a, m, list(o)) for a, m, o in case["listing"]]
         s = h.match(h.mop(ob._TRIVIAL_RULE), h.listing_file(fmt_listing(att)), ret="stream")
-        want = [(a, m, tuple(rm.normalise_operand(x) for x in o)) for a, m, o in att]
+        want = [e1.norm_inst(a, m, o) for a, m, o in att]
         try:
             return rm.decode(s) != want or case["clause"] == "injective", s
         except ValueError as e:
